@@ -167,6 +167,15 @@ def run (lines : Array String) : IO Report := do
                                store := { checkVHash := nat "checkvhash" 0 == 1 }, listKey := nat "listkey" 256, version := unhex ((kvOpt opts "version").getD "-") }
       rs := { cfg := cfg, st := { led := { tokens := cfg.maxReq } }, cid := cid }
     | ["stream", hx] => rs := { rs with rest := unhex hx }
+    | ["latestream", _] => pure ()
+    | "late" :: opts =>
+      -- the overdue phase (every command answered RECV_TIMEOUT and dropped): the property alone judges it — when the
+      -- connection is idle again nothing of the dropped command may still be counted, every token is back
+      let led := ((kvOpt opts "led").bind parseLed).getD {}
+      if opts.contains "PANIC" then diff rep ln "oracle" s!"case={rs.cid} key=C11/panic a command panicked (overdue phase)"
+      if led.getC ≠ 0 || led.getS ≠ 0 || led.setC ≠ 0 || led.setS ≠ 0 || led.tokens ≠ rs.cfg.maxReq then
+        diff rep ln "oracle" s!"case={rs.cid} key=C12/idle-nonzero/overdue a command answered RECV_TIMEOUT was dropped but stays counted: ledger={fmtLed led}"
+      ok rep
     | "step" :: opts =>
       if rs.dead then continue
       let cid := rs.cid
